@@ -472,6 +472,49 @@ def dynamic(pid, tier, seed, cases):
             res["features"][k] = res["features"].get(k, 0) + 1
             if run.is_crash(ji):
                 res["violations"].append({"case": c, "impl": ji, "what": "the library crashed: %s" % json.dumps(ji)[:300]})
+    if pid == "C05":
+        # Spec/DocWf.v / DocSingleWf.v on the real tool: for every symbol, the number of "x = value" statements in the
+        # ordinary script equals its number of occurrences in doc_symbols(_single) (DocWf_symbols_count,
+        # DocSingleWf_symbols_count) - the document-side list of everything the script defines
+        from . import scriptparse as sp_
+        subs_ = [c for c in cases if c.raw_yaml is None and isinstance(c.doc, dict) and not c.partial][: (900 if tier == "quick" else 12000)]
+        impls_ = run.run_impl_only(subs_)
+        items, back = [], {}
+        for c in subs_:
+            ji = run.normalise(impls_[c.cid])
+            if props.outcome(ji)[0] != "ok":
+                continue
+            try:
+                ast = sp_.parse_script(ji["gen"]["ok"]["main"]["script"])
+            except sp_.ParseError:
+                continue
+            cnt = {}
+            for s_, _ in sp_.walk(ast):
+                if s_["k"] == "assign":
+                    cnt[s_["sym"]] = cnt.get(s_["sym"], 0) + 1
+            items.append((c.cid, c.doc, c.opts, c.emit_version, False))
+            back[c.cid] = (c, cnt)
+        try:
+            ds = run.run_header_spec(items, what="symbols")
+        except Exception as e:
+            ds = None
+            res["proof_broken"] = "the extracted symbol specification (coq/Spec/DocWf.v) failed to run: %s" % str(e)[-300:]
+        if ds is None and "proof_broken" not in res:
+            res["proof_broken"] = "the extracted symbol specification (coq/Spec/DocWf.v) could not be built"
+        for cid, want in (ds or {}).items():
+            c, cnt = back[cid]
+            if want is None:
+                continue
+            res["evaluations"] += 1
+            res["features"]["symbols-spec"] = res["features"].get("symbols-spec", 0) + 1
+            wc = {}
+            for x in want:
+                wc[x] = wc.get(x, 0) + 1
+            if wc != cnt:
+                bad = sorted(k for k in set(wc) | set(cnt) if wc.get(k, 0) != cnt.get(k, 0))[:5]
+                res["violations"].append({"case": c, "impl": None,
+                                          "what": "the symbols the real script defines differ from doc_symbols (Spec/DocWf.v): "
+                                                  + "; ".join("%s defined %d times, specified %d" % (k, cnt.get(k, 0), wc.get(k, 0)) for k in bad)})
     if pid == "C19":
         # the extracted grammar reader of Spec/C19Grammar.v on the scripts the real tool wrote: for documents that meet
         # doc_names_valid (the hypothesis of C19_generated_lines) every script must be accepted
